@@ -287,9 +287,12 @@ impl Rollback {
         // NOTE: for now, if there is a pending truncate, we ignore everything else.
         if let Some(pending_truncate) = pending_truncate {
             // If the truncation removes every live record, the log becomes empty. Records below
-            // the start of the live range have been pruned and must not become live again.
+            // the oldest remaining delta have been pruned, possibly together with their segment
+            // file, and must not become live again. The start recorded by the previous manifest
+            // may lag behind and still name such a record, so emptiness is decided by what is
+            // left in memory.
             let start_live = seglog.live_range().0 .0;
-            let (rollback_start_live, rollback_end_live) = if pending_truncate < start_live {
+            let (rollback_start_live, rollback_end_live) = if in_memory.total_len() == 0 {
                 (0, 0)
             } else {
                 (start_live, pending_truncate)
